@@ -229,6 +229,39 @@ pub fn run(ctx: &mut Ctx) {
             }
         }
     }
+    // substring tests over characters that *extend* the previous one in grapheme-aware text handling (combining
+    // mark, variation selector, zero-width joiner, emoji modifier): containment is by code points, so a match
+    // followed by such a character is still a match
+    {
+        let letters = ['e', 'é', '\u{301}', '\u{fe0f}', '\u{200d}', '😀', '\u{1f3fb}', '\u{2764}'];
+        let mut strs: Vec<String> = vec![String::new()];
+        for x in letters {
+            strs.push(x.to_string());
+        }
+        for x in letters {
+            for y in letters {
+                strs.push(format!("{}{}", x, y));
+            }
+        }
+        let needles = strs.clone();
+        for x in letters {
+            for y in letters {
+                for z in letters {
+                    strs.push(format!("{}{}{}", x, y, z));
+                }
+            }
+        }
+        for n in &needles {
+            if !ctx.mine() {
+                continue;
+            }
+            for h in &strs {
+                ctx.edge();
+                ctx.check("in:substring:extenders", &json!({"in": [n, h]}), &null);
+            }
+            ctx.check("in:substring:extenders:V", &json!({"in": [{"var": "n"}, {"var": "h"}]}), &json!({"n": n, "h": format!("caf{}\u{301} I \u{2764}\u{fe0f} U \u{1f468}\u{200d}\u{1f469}", n)}));
+        }
+    }
     // substring tests over S_uni
     let ss = al::s_uni(3);
     for s in &ss {
